@@ -45,7 +45,7 @@ LEVEL_TEXT = ("Generated histories of transform operations and moves judged "
               "written matrix model; exploration with class counters.")
 
 
-def op_strategy(depth=1):
+def op_strategy(depth=1, only_tr=False):
     from hypothesis import strategies as st
     c = st.one_of(hist.small_coord(), hist.small_coord(),
                   st.floats(min_value=-400, max_value=400, allow_nan=False),
@@ -61,7 +61,7 @@ def op_strategy(depth=1):
     nv = st.lists(st.floats(min_value=-5, max_value=5), min_size=3, max_size=3).filter(
         lambda v: math.sqrt(sum(x * x for x in v)) > 0.1)
     T = lambda name, *a: {"op": "t", "name": name, "args": list(a)}
-    tr = st.one_of(
+    tr = hist.equally(
         st.tuples(c, c, c).map(lambda t: T("translate", *t)),
         st.tuples(c, c).map(lambda t: T("translate", *t)),
         st.tuples(ang, st.sampled_from(["x", "y", "z"])).map(lambda t: T("rotate", *t)),
@@ -76,37 +76,36 @@ def op_strategy(depth=1):
         # any 4x4 matrix through the public chain_transform() (shears)
         affine_strategy().map(lambda m: T("chain_transform", m)),
     )
+    if only_tr:
+        return tr
     pt = hist.point_strategy(c)
-    mv = st.one_of(
-        st.fixed_dictionaries({"op": st.sampled_from(["move", "move", "rapid"]), "pt": pt,
-                               "form": st.sampled_from(["kw", "list", "point"])}),
-        st.fixed_dictionaries({"op": st.just("probe"), "mode": st.just("towards"), "pt": pt,
-                               "form": st.just("kw")}),
-        st.tuples(c, c, c).map(lambda t: {"op": "sync", "pt": {"x": t[0], "y": t[1], "z": t[2]}}),
-        st.sampled_from(["absolute", "relative"]).map(
-            lambda m: {"op": "set_distance_mode", "mode": m}),
+    mv = hist.weighted(
+        (5, st.fixed_dictionaries({"op": st.sampled_from(["move", "move", "rapid"]), "pt": pt,
+                                   "form": st.sampled_from(["kw", "list", "point"])})),
+        (1, st.fixed_dictionaries({"op": st.just("probe"), "mode": st.just("towards"), "pt": pt,
+                                   "form": st.just("kw")})),
+        (1, st.tuples(c, c, c).map(lambda t: {"op": "sync", "pt": {"x": t[0], "y": t[1], "z": t[2]}})),
+        (2, st.sampled_from(["absolute", "relative"]).map(
+            lambda m: {"op": "set_distance_mode", "mode": m})),
         # short single-axis step from wherever the head is
-        st.tuples(st.sampled_from(["x", "y", "z"]),
-                  st.one_of(st.integers(-8, 8).map(lambda k: k / 4.0),
-                            st.floats(min_value=-3, max_value=3))).map(
-            lambda t: {"op": "nudge", "axis": t[0], "d": t[1]}),
-        st.tuples(st.sampled_from(["x", "y", "z"]),
-                  st.integers(-8, 8).map(lambda k: k / 4.0)).map(
-            lambda t: {"op": "nudge", "axis": t[0], "d": t[1]}),
-        st.fixed_dictionaries({"op": st.sampled_from(["set_axis", "move_absolute", "auto_home"]),
-                               "pt": pt, "form": st.just("kw")}),
-        st.fixed_dictionaries({"op": st.just("shape"), "d": hist.shape_strategy(2),
-                               "dir": st.sampled_from(["cw", "ccw"])}),
+        (3, st.tuples(st.sampled_from(["x", "y", "z"]),
+                      st.one_of(st.integers(-8, 8).map(lambda k: k / 4.0),
+                                st.floats(min_value=-3, max_value=3))).map(
+            lambda t: {"op": "nudge", "axis": t[0], "d": t[1]})),
+        (2, st.fixed_dictionaries({"op": st.sampled_from(["set_axis", "move_absolute", "auto_home"]),
+                                   "pt": pt, "form": st.just("kw")})),
+        (2, st.fixed_dictionaries({"op": st.just("shape"), "d": hist.shape_strategy(2),
+                                   "dir": st.sampled_from(["cw", "ccw"])})),
+        (1, st.just({"op": "other"})),
     )
-    mv = st.one_of(mv, mv, mv, mv, mv, mv, st.just({"op": "other"}))
     if depth <= 0:
-        return st.one_of(tr, mv, mv)
+        return hist.weighted((2, tr), (3, mv))
     inner = op_strategy(depth - 1)
     ctx = st.fixed_dictionaries({"op": st.just("tctx"),
                                  "body": st.lists(inner, max_size=4),
                                  "to_identity": st.sampled_from([False, False, True]),
                                  "raise": st.sampled_from([False, False, True, "base"])})
-    return st.one_of(tr, tr, mv, mv, mv, ctx)
+    return hist.weighted((4, tr), (6, mv), (1, ctx))
 
 
 class Runner:
@@ -364,8 +363,13 @@ NT = {"partial_move_under_coupling_transform", "relative_move_under_coupling_tra
 
 def strategy(n):
     from hypothesis import strategies as st
+    # most histories start with one or two transformations, so that the moves
+    # that follow are judged under a non-trivial transform
+    prefix = st.lists(op_strategy(only_tr=True), min_size=0, max_size=2)
     return st.fixed_dictionaries({"dp": st.integers(4, 8),
-                                  "ops": st.lists(op_strategy(), min_size=1, max_size=n)})
+                                  "ops": st.tuples(prefix, st.lists(op_strategy(), min_size=2,
+                                                                    max_size=n)).map(
+                                      lambda t: t[0] + t[1])})
 
 
 def run_shard(ctx):
